@@ -449,7 +449,7 @@ pub fn run_focus(cfg: &Cfg, focus: &'static str) -> Agg {
     let mut agg = Agg::new(cfg);
     let tier = cfg.tier;
     let prefix = format!("{focus}/");
-    agg.run_parallel("datacap", tier.pick(300, 8000), Duration::from_secs(tier.pick(200, 1500)), |i, rng| {
+    agg.run_parallel("datacap", tier.pick(2400, 40000), Duration::from_secs(tier.pick(200, 1500)), |i, rng| {
         let mut o = history(i, rng, tier);
         o.violations.retain(|x| x.signature.starts_with(&prefix));
         o
